@@ -1,0 +1,6 @@
+//go:build !verif
+// +build !verif
+
+package engine
+
+func verifPoint(point string, tag int64) {}
